@@ -9,12 +9,15 @@
    FULL STATEMENT (the Spec oracle is its executable form), proved as C08_oracle with no hypothesis beyond
    legality of the history:
      forall rts ops, legal8 ops = true -> exists tr, xrun rts ops = Some tr /\ oracle8 ops tr = true.
-   It covers, for any events, snapshots, listener schedules, when_built / when_closed / close requests at any
-   position and acknowledgements (250 or 552) in any order relative to the events, unbounded: no operation
-   raises; every listener registered on the object hears exactly the expected calls; when_built succeeds iff
-   BUILT is reached and fails at the CLOSED/FAILED that comes first; when_closed; a close wait completes
-   exactly once, not before the object is gone, and by the later of acknowledgement and event (at once when
-   the object is already gone); a refused close command fails its wait.
+   It covers, for any events (RESOLVE streams included), snapshots, listener schedules, listeners that raise from
+   a callback or look at TorState from inside it (Spec.C08.carg: the state they see already reflects the transition),
+   when_built / when_closed / close requests at any position and acknowledgements (250 or 552) in any order relative
+   to the events, unbounded: no operation raises; every listener registered on the object hears exactly the expected
+   calls whatever the other listeners do; when_built succeeds iff BUILT is reached and fails at the CLOSED/FAILED that
+   comes first; when_closed; a close wait completes exactly once, not before the object is gone, and by the later of
+   acknowledgement and event (at once when the object is already gone); a refused close command fails its wait.
+   C08_state_follows_tor_view: on all legal histories the TorState part of the model is Tor's
+   view after every operation, whatever listeners do.
    Histories may also contain TorState.build_circuit() calls (OBuild) and Tor's answer to the oldest unanswered one
    (OExtended id = "250 EXTENDED id", OBuildErr = 5xx), the answer before or after the first CIRC event of id: the
    call completes exactly once with the Circuit object standing for id -- the one already announced if an event came
@@ -22,13 +25,14 @@
    limit: answers come in command order, and the property does not depend on how close acknowledgements and
    EXTENDCIRCUIT answers interleave, so legality keeps the two kinds apart (no build_circuit() while a close command
    may be unanswered, no close request while an EXTENDCIRCUIT is unanswered).
-   The former findings C08-F1 / C08-F2 are repaired in /repo (ce7627d, b4f1a1d); their witnesses stay as
-   regression anchors: C08_stream_close_after_gone_now_accepted, C08_circuit_close_after_failed_now_accepted.
+   The former findings C08-F1 .. C08-F4 are repaired in /repo (ce7627d, b4f1a1d, 792f48d, 2365751); their witnesses
+   stay as regression anchors: C08_stream_close_after_gone_now_accepted, C08_circuit_close_after_failed_now_accepted,
+   C08_raising_listener_now_accepted, C08_newresolve_now_accepted.
    Kept as separately readable consequences / model-level facts: C08_notifications_exact, C08_waits_once,
    C08_done_only_if_requested, C08_close_waits_for_event. *)
 From Coq Require Import List Bool Arith NArith.
 From TxVerif Require Import Lib.Bytes Lib.NList Spec.C07 Spec.C08 Model.State Model.StateNotify
-  Proofs.C08Proofs Proofs.C08Refine Proofs.C08Waits Proofs.C08Close Proofs.C08Full.
+  Proofs.C07Proofs Proofs.C08Proofs Proofs.C08Refine Proofs.C08Waits Proofs.C08Close Proofs.C08Full.
 Import ListNotations.
 Open Scope N_scope.
 
@@ -38,6 +42,15 @@ Theorem C08_oracle : forall rts ops, legal8 ops = true ->
 Proof. exact oracle_all. Qed.
 Print Assumptions C08_oracle.
 
+(* C08-F4 (repaired by 2365751): a RESOLVE request announced by NEWRESOLVE is reported as stream_new (method 0);
+   it used to be reported as stream_succeeded *)
+Definition wit_F4 : list op := [OAddSL 0; OEv (EStream 1 SNewResolve 0 0 0 [(0, 9)])].
+Theorem C08_newresolve_now_accepted :
+  legal8 wit_F4 = true /\ xrun [] wit_F4 = Some [[]; [NStream 0 0 0 0 []]] /\
+  oracle8 wit_F4 [[]; [NStream 0 0 0 0 []]] = true.
+Proof. vm_compute. repeat split; reflexivity. Qed.
+Print Assumptions C08_newresolve_now_accepted.
+
 (* every listener registered on the object at that moment (global before / after the object appeared,
    local, minus removed ones) hears exactly the expected calls, in order, with Tor's flags in both cases;
    nobody else hears anything; no operation of a legal history raises *)
@@ -45,6 +58,14 @@ Theorem C08_notifications_exact : forall rts ops, legal8 ops = true ->
   exists tr, xrun rts ops = Some tr /\ notifs_exact ops tr = true.
 Proof. exact notifications_exact. Qed.
 Print Assumptions C08_notifications_exact.
+
+(* whatever listeners do (they only ever add outputs) and whatever is requested: after every
+   operation the TorState part of the model stands for exactly Tor's view of the history so far -- C07's statement
+   under C08's histories; xfinal / lfinal = the states after the whole list, and every prefix is such a list *)
+Theorem C08_state_follows_tor_view : forall rts ops xs', legal8 ops = true -> xfinal (xinit rts) ops = Some xs' ->
+  exists ls', lfinal ls0 ops = Some ls' /\ abs (base xs') = l_tv ls' /\ WF (base xs') /\ Complete (base xs').
+Proof. exact state_follows_tor_view. Qed.
+Print Assumptions C08_state_follows_tor_view.
 
 Theorem C08_waits_once : forall rts ops tr w,
   legal8 ops = true -> xrun rts ops = Some tr -> (countN w (concat (map done_ids tr)) <= 1)%nat.
@@ -73,6 +94,21 @@ Theorem C08_circuit_close_after_failed_now_accepted :
   oracle8 wit_F2 [[]; [NCmd 0 1]; []; [NDone 2 WOkNone]; [NDone 1 WOkNone]; []] = true.
 Proof. exact circuit_close_after_failed_now_accepted. Qed.
 Print Assumptions C08_circuit_close_after_failed_now_accepted.
+
+(* C08-F3 (repaired by 792f48d): listener 32 raises from circuit_built; listener 0, registered after it, still hears
+   every transition and the when_built() wait completes at BUILT.  (A listener that raises and one that returns are the
+   same to the model because every call is guarded; the corpus file runs this history on the real objects.) *)
+Definition wit_F3 : list op :=
+  [OAddCL 32; OAddCL 0; OEv (ECirc 1 CLaunched [] [(0, 0)]); OWhenBuilt 0 1;
+   OEv (ECirc 1 CBuilt [{| h_rid := 2; h_nick := 0 |}] []); OEv (ECirc 1 CFailed [{| h_rid := 2; h_nick := 0 |}] [(2, 3)])].
+Definition tr_F3 : list (list nev) :=
+  [[]; []; [NCirc 32 0 0 0 []; NCirc 0 0 0 0 []; NCirc 32 1 0 0 []; NCirc 0 1 0 0 []]; [];
+   [NCirc 32 2 0 2 []; NCirc 0 2 0 2 []; NCirc 32 3 0 0 []; NCirc 0 3 0 0 []; NDone 1 (WOkC 0)];
+   [NCirc 32 5 0 0 [(2, 3); (102, 3)]; NCirc 0 5 0 0 [(2, 3); (102, 3)]]].
+Theorem C08_raising_listener_now_accepted :
+  legal8 wit_F3 = true /\ xrun [] wit_F3 = Some tr_F3 /\ oracle8 wit_F3 tr_F3 = true.
+Proof. vm_compute. repeat split; reflexivity. Qed.
+Print Assumptions C08_raising_listener_now_accepted.
 
 (* the hypotheses are satisfiable by a non-trivial history: a global listener, a wait for BUILT requested
    before the circuit is built, a close requested and acknowledged BEFORE Tor reports the circuit closed *)
